@@ -21,3 +21,4 @@ def run(ctx):
     ss.clean_only_removes(ctx, 'C16')
     ss.put_unconditional(ctx, 'C16')
     ss.read_apis_merge_log(ctx, 'C16')
+    ss.write_apis_unconditional(ctx, 'C16')
